@@ -16,6 +16,7 @@
      a.inverse()           (default traits = Affine)       aff_inverse a   = (inverse(linear), -(inverse(linear)*translation))
                                                                             with EnuModel.mat3_inverse (Eigen's cofactor inverse)
      (Eigen::Vector3d() << x, y, z).finished()             mkV3 x y z      (in this order)
+     Eigen::Vector3d(x, y, z)                              mkV3 x y z
      GeodeticCoordinates()  / member init  g_()            geo_zero = mkGeo 0 0 0   (value-initialisation of the aggregate)
      g.latitude / g.longitude / g.altitude                 g_lat g / g_lon g / g_alt g
      struct WGS84Coordinates {latitude, longitude}         wgs84 = mkWgs w_lat w_lon
